@@ -31,7 +31,7 @@ Definition check3d (a b c : token_type) : bool := check_d [a; b; c].
 
 Lemma triples_d_true :
   forallb (fun a => forallb (fun b => forallb (fun c => check3d a b c) all_token_type) all_token_type) all_token_type = true.
-Proof. vm_compute. reflexivity. Qed.
+Proof. vm_cast_no_check (@eq_refl bool true). Qed.
 
 Lemma triples_check_d : forall a b c, check_d [a; b; c] = true.
 Proof.
@@ -41,12 +41,18 @@ Proof.
 Qed.
 
 Definition reduced_d (n : nat) : bool := forallb check_d (seqs reduced_alphabet n).
-Lemma reduced_d_0 : reduced_d 0 = true. Proof. vm_compute. reflexivity. Qed.
-Lemma reduced_d_1 : reduced_d 1 = true. Proof. vm_compute. reflexivity. Qed.
-Lemma reduced_d_2 : reduced_d 2 = true. Proof. vm_compute. reflexivity. Qed.
-Lemma reduced_d_3 : reduced_d 3 = true. Proof. vm_compute. reflexivity. Qed.
-Lemma reduced_d_4 : reduced_d 4 = true. Proof. vm_compute. reflexivity. Qed.
-Lemma reduced_d_5 : reduced_d 5 = true. Proof. vm_compute. reflexivity. Qed.
+Lemma reduced_d_0 : reduced_d 0 = true.
+Proof. vm_cast_no_check (@eq_refl bool true). Qed.
+Lemma reduced_d_1 : reduced_d 1 = true.
+Proof. vm_cast_no_check (@eq_refl bool true). Qed.
+Lemma reduced_d_2 : reduced_d 2 = true.
+Proof. vm_cast_no_check (@eq_refl bool true). Qed.
+Lemma reduced_d_3 : reduced_d 3 = true.
+Proof. vm_cast_no_check (@eq_refl bool true). Qed.
+Lemma reduced_d_4 : reduced_d 4 = true.
+Proof. vm_cast_no_check (@eq_refl bool true). Qed.
+Lemma reduced_d_5 : reduced_d 5 = true.
+Proof. vm_cast_no_check (@eq_refl bool true). Qed.
 
 Lemma reduced_d_spec : forall n toks, reduced_d n = true -> length toks = n ->
   (forall x, In x toks -> In x reduced_alphabet) -> check_d toks = true.
